@@ -18,23 +18,23 @@ func init() {
 	props["C08"].decided = "R1 every mutex acquired anywhere in the module is released on every exit of the acquiring function; " +
 		"R2 every process-lasting effect (goroutine start, package-level write, listener, ticker, registry store) reachable from a configuration load outside lifecycle-registered closures is enumerated and classified — idempotent, undone on failure by verified code, or a listed known finding; an unclassified effect is a violation; " +
 		"R3 every listener a start opens is registered with the cleanup that a failed start runs; " +
-		"R4 functions whose deferred undo code is keyed on an error variable return that very variable (or return under its non-nil test) on every error exit; " +
+		"R4 in every evaluated trace (oracle callbacks and steps, each failing in turn) a failed startWithListenerFds returns the failing step's error and leaves no trace of the instance in the instance list, and a Restart that fails before the new instance is up runs the restart-failed callbacks and keeps the old instance; " +
 		"R5 on the reload signal path the event hooks are copied before they are purged, and restored exactly when the reload failed."
 	register("C16", &propSpec{
-		technique: "static analysis: who-may-call enumeration of every callback-list invocation site with guard atoms and must-pass ordering; infeasible-edge pruning from constant callee summaries",
+		technique: "static analysis: who-may-call enumeration of every callback-list invocation site with guard atoms and must-pass ordering; infeasible-edge pruning from constant callee summaries; lifecycle trace tables: startWithListenerFds / Restart / ShutdownCallbacks evaluated with oracle callbacks (E10)",
 		run:       runC16,
-		decided: "R1 each of the six callback lists is invoked only at its designated sites and under its designated guards (first-startup only when not upgrading and not restarting; startup before the servers start; restart before the new instance starts; restart-failed only in the deferred failure handler; shutdown after Stop on the success path and in ShutdownCallbacks; final-shutdown only in ShutdownCallbacks), and ShutdownCallbacks is reachable only through the once-guarded signal path; " +
+		decided: "R1 the six callback lists are invoked (or handed to a helper) only within startWithListenerFds, Instance.Restart, Instance.ShutdownCallbacks and the functions these were split into, and ShutdownCallbacks is reachable only through the once-guarded signal path; R6 the lifecycle traces: with oracle callbacks in all six lists and every step failing in turn (44 cases), first-startup callbacks run only when neither upgrading nor restarting, startup callbacks before the servers start, restart callbacks before the new instance starts, the old instance's stop and shutdown callbacks only after it, restart-failed callbacks exactly when the reload failed before the new instance was up, and ShutdownCallbacks runs every shutdown and final-shutdown callback once, in order; " +
 			"R2 a reload hands the old instance's wait group to the new instance; R3 SIGTERM runs callbacks, then Stop, then exits; " +
 			"R4 once the new instance has started, Restart cannot return the old instance or report failure; " +
-			"R5 an instance whose start failed is spliced out of the instance list on every error exit (the deferred splice is keyed on the error variable every error return reports through), so process shutdown never runs callbacks of an instance that never went live.",
-		notDecided: "trace-level conformance over all histories; exactly-once under concurrent signals beyond the sync.Once guard.",
+			"R5 whichever step of a start fails, the instance is gone from the instance list when the error is returned, so process shutdown never runs callbacks of an instance that never went live.",
+		notDecided: "histories longer than one start, one reload or one shutdown (the traces are per call); panics inside callbacks; exactly-once under concurrent signals beyond the sync.Once guard.",
 	})
 	register("C07", &propSpec{
-		technique: "static analysis: must-pass / guard-edge ordering in Restart and startServers, loop-exit analysis of Instance.Stop, who-may-call (Shutdown vs Close), wait-group pairing",
+		technique: "static analysis: must-pass / guard-edge ordering in Restart and startServers, loop-exit analysis of Instance.Stop, who-may-call (Shutdown vs Close), wait-group pairing; lifecycle trace tables (E10) for startup-before-serving",
 		run:       runC07,
 		decided: "R1 the old instance is stopped only after the new one started successfully, and the success return follows that stop; R2 on reload a listener is opened with Listen/ListenPacket only when no inherited descriptor produced one, inherited ones come from the old listener's File(); " +
 			"R3 servers stop through http.Server.Shutdown under the connection-drain timeout (never Close), and Instance.Stop visits every server (no early exit); R4 every wait-group Add is matched by the same number of Done calls on all paths; " +
-			"R5 the new instance's startup callbacks complete before its servers start accepting.",
+			"R5 in every evaluated trace of startWithListenerFds (oracle callbacks, every failing step) the servers start after the last startup callback and not at all when one fails.",
 		notDecided: "every interleaving claim: that each request gets a complete response from old or new, and 'new after Restart returns' under concurrent load.",
 	})
 }
